@@ -230,14 +230,37 @@ func c18Fresh(s *c18State, impl IRoomVersion, ev PDU, op string) PDU {
 }
 
 // c18Light: the identity accessors, applied to derived events (redacted copy, re-signed copy ...).
-func c18Light(s *c18State, ev PDU, tag string) {
+// When the same accessors returned normally on the event the copy was derived from (origOK), a
+// panic on the derived event is a different defect from "the parser accepted an event its
+// accessors cannot serve": it is reported under <prefix>/after-<operation>.
+func c18Light(s *c18State, ev PDU, tag string, origOK bool) {
 	if ev == nil {
 		return
 	}
-	s.call(tag+"/EventID", func() { _ = ev.EventID() })
-	s.call(tag+"/RoomID", func() { r := ev.RoomID(); _ = r.String() })
-	s.call(tag+"/AuthEventIDs", func() { _ = ev.AuthEventIDs() })
-	s.call(tag+"/SenderID", func() { _ = ev.SenderID() })
+	d := s
+	if origOK {
+		op := tag
+		if i := lastSlash(tag); i >= 0 {
+			op = tag[i+1:]
+		}
+		d = &c18State{ctx: s.ctx, prefix: s.prefix + "/after-" + op, seen: map[string]bool{}, quiet: s.quiet}
+	}
+	d.call(tag+"/EventID", func() { _ = ev.EventID() })
+	d.call(tag+"/RoomID", func() { r := ev.RoomID(); _ = r.String() })
+	d.call(tag+"/AuthEventIDs", func() { _ = ev.AuthEventIDs() })
+	d.call(tag+"/SenderID", func() { _ = ev.SenderID() })
+	if d != s {
+		s.ops += d.ops
+	}
+}
+
+func lastSlash(s string) int {
+	for i := len(s) - 1; i >= 0; i-- {
+		if s[i] == '/' {
+			return i
+		}
+	}
+	return -1
 }
 
 // c18Ops applies every accessor and single-event operation to an event a parser accepted.
@@ -248,8 +271,8 @@ func c18Ops(s *c18State, impl IRoomVersion, ev PDU, q spec.UserIDForSender, tag 
 	ctx := context.Background()
 	var typ string
 	var sender spec.SenderID
-	s.call(tag+"/EventID", func() { _ = ev.EventID() })
-	s.call(tag+"/RoomID", func() { r := ev.RoomID(); _ = r.String(); _ = r.OpaqueID() })
+	idOK := !s.call(tag+"/EventID", func() { _ = ev.EventID() })
+	idOK = !s.call(tag+"/RoomID", func() { r := ev.RoomID(); _ = r.String(); _ = r.OpaqueID() }) && idOK
 	s.call(tag+"/Type", func() { typ = ev.Type() })
 	s.call(tag+"/StateKey", func() { _ = ev.StateKey(); _ = ev.StateKeyEquals("") })
 	s.call(tag+"/Content", func() { _ = ev.Content() })
@@ -302,7 +325,7 @@ func c18Ops(s *c18State, impl IRoomVersion, ev PDU, q spec.UserIDForSender, tag 
 	// Redact on a private copy, then identity accessors on the redacted form.
 	if cp := c18Fresh(s, impl, ev, tag+"/Redact"); cp != nil {
 		if !s.call(tag+"/Redact", func() { cp.Redact() }) {
-			c18Light(s, cp, tag+"/redacted")
+			c18Light(s, cp, tag+"/Redact", idOK)
 		}
 	}
 	// SetUnsigned returns a copy.
@@ -311,7 +334,7 @@ func c18Ops(s *c18State, impl IRoomVersion, ev PDU, q spec.UserIDForSender, tag 
 	if !s.call(tag+"/SetUnsigned", func() {
 		su, suErr = ev.SetUnsigned(map[string]interface{}{"age": 5, "prev_content": map[string]interface{}{"a": "b"}})
 	}) && suErr == nil {
-		c18Light(s, su, tag+"/set-unsigned")
+		c18Light(s, su, tag+"/SetUnsigned", idOK)
 	}
 	// SetUnsignedField mutates: private copies, several path shapes.
 	for _, path := range []string{"invite_room_state", "a.b", "", "0", "a\\.b", "*", "a.-1", "#"} {
@@ -328,14 +351,14 @@ func c18Ops(s *c18State, impl IRoomVersion, ev PDU, q spec.UserIDForSender, tag 
 	if !s.call(tag+"/ToHeaderedJSON", func() { hj, herr = ev.ToHeaderedJSON() }) && herr == nil {
 		var hv PDU
 		if !s.call(tag+"/NewEventFromHeaderedJSON", func() { hv, herr = NewEventFromHeaderedJSON(c18Copy(hj), false) }) && herr == nil {
-			c18Light(s, hv, tag+"/headered")
+			c18Light(s, hv, tag+"/NewEventFromHeaderedJSON", idOK)
 		}
 	}
 	// Counter-signing a received event is what HandleInvite does with a remote invite.
 	if cp := c18Fresh(s, impl, ev, tag+"/Sign"); cp != nil {
 		var signed PDU
 		if !s.call(tag+"/Sign", func() { signed = cp.Sign("local.example", "ed25519:c18", c18LocalKey()) }) {
-			c18Light(s, signed, tag+"/signed")
+			c18Light(s, signed, tag+"/Sign", idOK)
 		}
 	}
 	// Signature checks with stub verifiers (never nil).
